@@ -105,12 +105,12 @@ Definition reimport (e : env) (s : state) : outcome state (list Z) :=
   | Panic => Panic
   end.
 
-(* GenesisState.Validate() of an arbitrary genesis state and, when it passes, the result
-   class of InitGenesis on an emptied store (state discarded) *)
+(* GenesisState.Validate() of an arbitrary genesis state and the result class of InitGenesis
+   on an emptied store (state discarded), which the implementation runs on every probed state.
+   x/pricefeed's InitGenesis does NOT call GenesisState.Validate: what it refuses is what
+   SetParams, SetPrice and SetCurrentPrices refuse (see [init_genesis]) *)
 Definition probe (e : env) (s : state) (g : genesis) : list Z :=
-  if validate_genesis g
-  then [1; rcode (class_of (init_genesis e (now s) (status s) g))]
-  else [0; -1].
+  [(if validate_genesis g then 1 else 0); rcode (class_of (init_genesis e (now s) (status s) g))].
 
 Definition gstep (e : env) (s : state) (o : gop) : outcome state (list Z) :=
   match o with
